@@ -221,7 +221,7 @@ def model_kind(kind):
     return "auto_plain" if kind == "auto-plain" else "auto_cached"
 
 
-def model_compare(drv, kinds, programs, obs, segments=True):
+def model_compare(drv, kinds, programs, obs, segments=True, register_first=False):
     """c16.nrun on the same plan, with the scores / object grouping observed in the run."""
     allsc = sorted({nd["score"] for prog in programs for top in prog for nd in walk(top)
                     if nd.get("score") is not None})
@@ -273,7 +273,7 @@ def model_compare(drv, kinds, programs, obs, segments=True):
     resp = drv.call("c16.nrun", queues=queues,
                     overwrite=[[o, ov.get(k, "no")] for o, k in objkind.items()],
                     cache_only=[o for o, k in objkind.items() if k == "reusable-cacheonly"],
-                    probe=probe, fuel=4000, **kw)
+                    probe=probe, fuel=4000, register_first=register_first, **kw)
     if "error" in resp:
         return "c16.nrun driver error: " + resp["error"]
     if resp["mismatch"] is not None:
@@ -334,7 +334,7 @@ def check(ctx, drv, kinds, programs, chooser, tag, instr="private"):
         hit = nd.get("ntrials", 0) == 0 and nd.get("got") is not None
         ctx.count("N:answer_without_search" if hit else ("N:raised:" + str(nd.get("error")) if nd["got"] is None
                                                          else "N:answer_after_search"))
-    ctx.count("N:max_depth_%d" % max([depth_of(t) for p in programs for t in p] or [0]))
+    ctx.count("N:nesting_depth_%d" % (max([depth_of(t) for p in programs for t in p] or [1]) - 1))
     for k in kinds:
         ctx.count("N:object:" + k)
     sw = sum(1 for a, b in zip(obs["schedule"], obs["schedule"][1:]) if a != b)
@@ -358,6 +358,12 @@ def check(ctx, drv, kinds, programs, chooser, tag, instr="private"):
             diff = f"comparison failed: {type(e).__name__}: {e}"
         ctx.traces += 1
         if diff:
+            try:
+                if model_compare(drv, kinds, programs, obs, register_first=True) is None:
+                    diff += ("  [the run agrees with the model's variant registerFirst = true: the sub-optimizer "
+                             "is registered before its search, see C16.register_first_counterexample]")
+            except Exception:
+                pass
             ctx.corr_broken("c16.nrun: " + diff, case)
     return obs, True
 
@@ -446,18 +452,27 @@ def run(ctx, drv):
         kinds, programs = rand_case(rng, rng.choice([2, 2, 3]), rng.choice([1, 1, 2]))
         r2 = random.Random(rng.randrange(1 << 30))
         check(ctx, drv, kinds, programs, lambda en, k, r2=r2: r2.choice(en), "threads")
-    # NX: every interleaving of two threads that each nest one query on one shared object
+    # NX: one thread nests a query on the shared object while another thread asks about the nested
+    # contraction: random schedules in the quick tier, every interleaving (DFS) in the thorough one
     notes = []
-    ex = [(["reusable-no"], [[{"nid": 4, "target": 0, "call": False,
-                               "trials": [{"nested": [leaf(3)], "fail": False}]}],
-                             [{"nid": 3, "target": 0, "call": False,
-                               "trials": [{"nested": [leaf(4)], "fail": False}]}]])]
+    nx = [[{"nid": 4, "target": 0, "call": False,
+            "trials": [{"nested": [leaf(3)], "fail": False}, {"nested": [], "fail": False}]}], [leaf(3)]]
+    both = [[{"nid": 4, "target": 0, "call": False,
+              "trials": [{"nested": [leaf(3)], "fail": False}, {"nested": [], "fail": False}]}],
+            [{"nid": 3, "target": 0, "call": False,
+              "trials": [{"nested": [leaf(4)], "fail": False}, {"nested": [], "fail": False}]}]]
+    for kind in ("reusable-no", "reusable-improved", "auto-cached"):
+        for programs in (nx, both):
+            for _ in range(25 if quick else 150):
+                if ctx.time_left() < 60:
+                    break
+                r2 = random.Random(rng.randrange(1 << 30))
+                check(ctx, drv, [kind], [[strip(t) for t in p] for p in programs],
+                      lambda en, k, r2=r2: r2.choice(en), "window")
     if not quick:
-        ex.append((["reusable-improved"], ex[0][1]))
-        ex.append((["auto-cached"], ex[0][1]))
-    for kinds, programs in ex:
-        runs, complete = explore_all(ctx, drv, kinds, programs, 600 if quick else 20000, "exhaustive")
-        notes.append({"kinds": kinds, "interleavings": runs, "complete": complete})
+        for kinds in (["reusable-no"], ["reusable-improved"]):
+            runs, complete = explore_all(ctx, drv, kinds, nx, 4000, "exhaustive")
+            notes.append({"kinds": kinds, "interleavings": runs, "complete": complete})
     ctx.notes["nested_exhaustive_interleavings"] = notes
 
 
